@@ -89,6 +89,17 @@ theorem unquoteEtag_spec (s : List Char) :
         simp [startswith, List.isPrefixOf, e3, hb]
 
 
+/-- is the value spelled like an entity tag (what `parse_if_range_header` tests before it tries a date)? -/
+def quotedLike (v : List Char) : Bool :=
+  startswith (lstrip v) ['"'] || startswith (lstrip v) ['W', '/', '"'] || startswith (lstrip v) ['w', '/', '"']
+
+/-- the `IfRange` object as the pair (etag, date) -/
+def ifRangeOf : Cond.IfRange → Option (List Char) × Option Int
+  | .none => (none, none)
+  | .date d => (none, some d)
+  | .etag e => (some e, none)
+
+
 /-- what `Range.__init__` accepts -/
 def ValidPair (p : Int × Option Int) : Prop :=
   match p.2 with
